@@ -75,12 +75,18 @@ class _ClockModule(object):
 
     @staticmethod
     def sleep(seconds):
-        SINK.target.device("sleep", (seconds,))
+        if SINK.target is not None:
+            SINK.target.device("sleep", (seconds,))
 
 
 def preload(prop):
     kernel.import_sut()
     _install_stubs()
+    # the clock seam: whatever way mingus.midi.fluidsynth reaches time.sleep (attribute access on the module,
+    # or a name bound by `from time import sleep` at import), it gets the virtual clock
+    import time as _time
+
+    _time.sleep = _ClockModule.sleep
     import mingus.midi.sequencer  # noqa
     import mingus.midi.sequencer_observer  # noqa
     import mingus.containers  # noqa
